@@ -5,6 +5,8 @@ Check (C06_machine_is_depth_first) : (forall lc h st tr r, (exists g, run g lc (
 Print Assumptions C06_machine_is_depth_first.
 Check (C06_and_then_is_sequencing) : (forall lc g a b st tr, run g lc (init (HThen a b)) st tr = run g lc (init (HSeq a b)) st tr).
 Print Assumptions C06_and_then_is_sequencing.
+Check (C06_result_transformers_are_transparent) : (forall lc g a st tr, run g lc (init (HWrap a)) st tr = run g lc (init a) st tr).
+Print Assumptions C06_result_transformers_are_transparent.
 Check (C06_deterministic) : (forall lc g1 g2 s st tr r1 r2, run g1 lc s st tr = Some r1 -> run g2 lc s st tr = Some r2 -> r1 = r2).
 Print Assumptions C06_deterministic.
 Check (C06_set_triggers_event_then_set) : (forall lc f st tr l v, eval (S f) lc (HSetV l v) st tr = eval f lc (HSeq (HSeq (HRecord (EOnEvent l v)) (lc_event lc l)) (HSeq (HRecord (EOnSet l v (Some (v_content (vget st l))))) (lc_set lc l))) (settled st l v) tr).
